@@ -339,6 +339,12 @@ def _run_model(case, ctx):
         d = _typed_equal(json.loads(json.dumps(a)), json.loads(json.dumps(b)))
         if d:
             ctx.violation("model/model-dict-differs", "model name / parameters / ranges / rmse differ after the round trip", diffs=d[:6], model=name)
+        # ... and the attributes themselves (a dictionary that mislabels a field on the way out mislabels it on both sides)
+        for attr in ("pressure_range", "loading_range", "rmse"):
+            va, vb = getattr(iso.model, attr), getattr(back.model, attr)
+            same = all(close(float(x), float(y), 1e-15) or (math.isnan(float(x)) and math.isnan(float(y))) for x, y in zip(numpy.ravel(va), numpy.ravel(vb))) and numpy.shape(va) == numpy.shape(vb)
+            if not same:
+                ctx.violation("model/attribute-differs/%s" % attr, "a model attribute differs after the round trip", model=name, a=va, b=vb)
         if getattr(iso, "branch", None) != getattr(back, "branch", None):
             ctx.violation("model/branch-differs", "model branch differs after the round trip", a=iso.branch, b=back.branch)
         # every loading and pressure the model predicts
